@@ -137,6 +137,7 @@ def build(choice, use_scope, dotted, shadow_import=None, name="X", early=None):
     f.add(("import", "lib", LIB, False))
     f.add(("import", "al", LIA, True))
     f.add(("const", "K", 2))
+    f.add(("enum", "P", 1))  # every pad field performs a NAMED lookup (stale search paths after a closing brace)
     A, B, C, D = Sc("A"), Sc("B"), Sc("C"), Sc("D")
 
     def decl(letter, when, sc):
@@ -166,19 +167,19 @@ def build(choice, use_scope, dotted, shadow_import=None, name="X", early=None):
     if use_scope == "C":
         C.add(("use", dotted, "f", 1))
     else:
-        C.add(("use", "bool", "pad", 1))
+        C.add(("use", "P", "pad", 1))
     decl("C", "a", C)
     B.add(("msg", C))
     if use_scope == "B":
         B.add(("use", dotted, "f", 1))
     else:
-        B.add(("use", "bool", "pad", 1))
+        B.add(("use", "P", "pad", 1))
     decl("B", "a", B)
     A.add(("msg", B))
     if use_scope == "A":
         A.add(("use", dotted, "f", 1))
     else:
-        A.add(("use", "bool", "pad", 1))
+        A.add(("use", "P", "pad", 1))
     decl("A", "a", A)
     f.add(("msg", A))
     if use_scope == "D":
